@@ -4,7 +4,7 @@ use nom::{
 };
 use std::{
     fmt::{self, Display},
-    io,
+    io::{self, Read},
     marker::PhantomData,
     path::PathBuf,
 };
@@ -28,10 +28,19 @@ where
         input.read_exact(&mut buf)?;
         let index_header = IndexHeader::parse(&buf)?;
         // read rest of header (index + data portions)
-        let size_rest =
-            (index_header.data_section_size + index_header.num_entries * INDEX_ENTRY_SIZE) as usize;
-        let mut buf = vec![0; size_rest];
-        input.read_exact(&mut buf)?;
+        // both fields are untrusted: compute the size without overflow and only allocate what
+        // the input actually provides
+        let size_rest = u64::from(index_header.data_section_size)
+            + u64::from(index_header.num_entries) * u64::from(INDEX_ENTRY_SIZE);
+        let mut buf = Vec::new();
+        io::Read::take(&mut *input, size_rest).read_to_end(&mut buf)?;
+        if (buf.len() as u64) < size_rest {
+            return Err(io::Error::new(
+                io::ErrorKind::UnexpectedEof,
+                "header is larger than the remaining input",
+            )
+            .into());
+        }
         Self::parse_header(index_header, &buf[..])
     }
 
